@@ -163,7 +163,7 @@ func (fr *frame) symSprintf(format string, argv value) value {
 			continue
 		}
 		if argi >= len(sl) {
-			lit(fmt.Sprintf(spec))
+			lit("%!" + spec[len(spec)-1:] + "(MISSING)")
 			continue
 		}
 		a := sl[argi]
@@ -240,7 +240,9 @@ func init() {
 	// regexp: compiled natively, kept as opaque handles
 	reCompile := func(must bool) externalFn {
 		return func(fr *frame, args []value) value {
-			re, err := regexp.Compile(concStr(fr, args[0], "regexp.Compile"))
+			// a pattern with symbolic bytes is split into its feasible concrete values (one
+			// path each): the compiler's verdict depends on every byte
+			re, err := regexp.Compile(fr.concretizeString(args[0]))
 			if must {
 				if err != nil {
 					panic(targetPanic{v: "regexp: Compile: " + err.Error()})
